@@ -200,6 +200,112 @@ def gen_case(rng, dims=None, malformed=False, dense=False, narrow=False):
                 core_res=core_res, decoy=(core_res is not None and rng.random() < 0.5))
 
 
+def mesh_machine(w, h, extra=()):
+    dl = set(wrap_links(w, h))
+    for x, y, l, both in extra:
+        dl.add((x, y, l))
+        if both:
+            dx, dy = VEC[l]
+            dl.add(((x + dx) % w, (y + dy) % h, OPP[l]))
+    return dict(w=w, h=h, dead_chips=[], dead_links=sorted([x, y, l] for x, y, l in dl))
+
+
+def long_cases(rng):
+    """very elongated machines: a root-to-leaf route of 1000-2500 hops (the recursion limit of the interpreter is
+    1000 frames); judged by the oracle only"""
+    def case(machine, src, dst, topo, radius=20):
+        return dict(machine=machine, nets=[dict(source=0, sinks=[1])], placements=[[0, list(src)], [1, list(dst)]],
+                    allocs=[[1, [1, 3]]], cons=[], radius=radius, stream=[rng.randrange(TWO53) for _ in range(16)],
+                    kind="valid", topo=topo, fault="long-route", sstyle="random", core_res=None, decoy=False, long=True)
+    torus = dict(w=3, h=2400, dead_chips=[], dead_links=[])
+    return [case(mesh_machine(3, 2500), (1, 0), (1, 2499), "mesh"),
+            case(mesh_machine(2500, 3), (0, 1), (2499, 1), "mesh", radius=0),
+            case(torus, (0, 0), (1, 1200), "torus"),
+            # a dead link (both directions) on the straight route of a 2-wide mesh: copy, A*, splice
+            case(mesh_machine(2, 1500, [(0, 750, 2, True)]), (0, 0), (0, 1499), "mesh"),
+            case(mesh_machine(2, 1500, [(0, 1490, 2, True)]), (0, 0), (0, 1499), "mesh"),
+            # ... near the source: the disconnected subtree is more than 1000 nodes deep
+            case(mesh_machine(2, 1500, [(0, 1, 2, True)]), (0, 0), (0, 1499), "mesh")]
+
+
+def gen_history(rng):
+    """one Machine object used for several route() calls with in-place edits of its fault sets in between"""
+    w, h = rng.choice([(3, 3), (4, 3), (4, 4), (5, 4), (5, 5), (2, 6), (6, 3)])
+    chips = [(x, y) for x in range(w) for y in range(h)]
+    topo = rng.choice(["torus", "mesh"])
+    dl = set(wrap_links(w, h)) if topo == "mesh" else set()
+    placements = {0: rng.choice(chips)}
+    sinks = []
+    for v in range(1, rng.randint(3, 9)):
+        placements[v] = rng.choice(chips)
+        sinks.append(v)
+    used = set(placements.values())
+    free = [ch for ch in chips if ch not in used]
+    steps = [["route"]]
+    cur_dl, cur_dc = set(dl), set()
+    for _ in range(rng.randint(2, 4)):
+        for _ in range(rng.randint(1, 3)):
+            k = rng.random()
+            if k < 0.35:
+                x, y = rng.choice(chips)
+                e = (x, y, rng.randrange(6))
+                steps.append(["dl_add", list(e)])
+                cur_dl.add(e)
+            elif k < 0.6:
+                es = set()
+                for _ in range(rng.randint(2, 8)):
+                    x, y = rng.choice(chips)
+                    es.add((x, y, rng.randrange(6)))
+                steps.append(["dl_update", sorted(map(list, es))])
+                cur_dl |= es
+            elif k < 0.7 and cur_dl:
+                e = rng.choice(sorted(cur_dl))
+                steps.append(["dl_discard", list(e)])
+                cur_dl.discard(e)
+            elif k < 0.75:
+                steps.append(["dl_clear"])
+                cur_dl = set()
+            elif k < 0.92 and free:
+                ch = rng.choice(free)
+                steps.append(["dc_add", list(ch)])
+                cur_dc.add(ch)
+            elif cur_dc:
+                ch = rng.choice(sorted(cur_dc))
+                steps.append(["dc_discard", list(ch)])
+                cur_dc.discard(ch)
+        steps.append(["route"])
+    allocs = [[v, [1, 2]] for v in sinks if rng.random() < 0.7]
+    return dict(kind="history", machine=dict(w=w, h=h, dead_chips=[], dead_links=sorted(map(list, dl))),
+                nets=[dict(source=0, sinks=sinks)], placements=sorted((v, list(xy)) for v, xy in placements.items()),
+                allocs=allocs, cons=[], radius=rng.choice([0, 2, 20]),
+                stream=[rng.randrange(TWO53) for _ in range(8 * len(sinks) + 8)], steps=steps, topo=topo,
+                sstyle="random", core_res=None, decoy=False)
+
+
+def history_states(c):
+    """the machine's fault sets at every route() of a history, tracked here (not read from the Machine object)"""
+    m = c["machine"]
+    dl = set(map(tuple, m["dead_links"]))
+    dc = set(map(tuple, m["dead_chips"]))
+    out = []
+    for op in c["steps"]:
+        if op[0] == "route":
+            out.append(dict(w=m["w"], h=m["h"], dead_chips=sorted(map(list, dc)), dead_links=sorted(map(list, dl))))
+        elif op[0] == "dl_add":
+            dl.add(tuple(op[1]))
+        elif op[0] == "dl_discard":
+            dl.discard(tuple(op[1]))
+        elif op[0] == "dl_update":
+            dl |= set(map(tuple, op[1]))
+        elif op[0] == "dl_clear":
+            dl = set()
+        elif op[0] == "dc_add":
+            dc.add(tuple(op[1]))
+        elif op[0] == "dc_discard":
+            dc.discard(tuple(op[1]))
+    return out
+
+
 def gen_ner_case(rng):
     """ner_net alone on a fault-free machine: the setting of theorem C03_ner_net_tree"""
     w, h = rng.choice(DIMS + [(8, 8), (9, 7), (1, 7), (2, 7), (7, 1)])
@@ -269,6 +375,33 @@ def expected_leaves(c, net):
     return exp
 
 
+def tree_parts(tree):
+    """-> (root chip, [(parent chip, route, child chip)] in some order, [(chip, route, vertex)], [chips]) for both
+    serialisations of the driver (nested, or flat for very deep trees); None if it could not be serialised"""
+    if tree[0] == "flat":
+        nodes, lvs = tree[1], tree[2]
+        chips = [(n[0], n[1]) for n in nodes]
+        hops = [(chips[n[2]], n[3], (n[0], n[1])) for n in nodes if n[2] >= 0]
+        return chips[0], hops, [(chips[i], r, v) for i, r, v in lvs], chips
+    if tree[0] != "n":
+        return None
+    chips, hops, leaves = [], [], []
+    todo = [tree]
+    while todo:
+        t = todo.pop()
+        p = (t[1], t[2])
+        chips.append(p)
+        for r, k in t[3]:
+            if k[0] == "l":
+                leaves.append((p, r, k[1]))
+            elif k[0] == "n":
+                hops.append((p, r, (k[1], k[2])))
+                todo.append(k)
+            else:
+                return None
+    return (tree[1], tree[2]), hops, leaves, chips
+
+
 def oracle_tree(c, net, tree):
     """-> None or (key, description): the property's sentence about one returned tree"""
     m = c["machine"]
@@ -276,38 +409,30 @@ def oracle_tree(c, net, tree):
     live = live_set(m)
     dl = set(map(tuple, m["dead_links"]))
     pl = dict((v, tuple(xy)) for v, xy in c["placements"])
-    if tree[0] != "n":
-        return ("tree:unserialisable", "the tree has more than 700 nodes or contains a cycle")
-    if (tree[1], tree[2]) != pl[net["source"]]:
-        return ("tree:root", "root %r is not the source's chip %r" % ((tree[1], tree[2]), pl[net["source"]]))
+    parts = tree_parts(tree)
+    if parts is None:
+        return ("tree:unserialisable", "the tree has more than 40000 nodes or contains a cycle")
+    root, hops, leaves, chips = parts
+    if root != pl[net["source"]]:
+        return ("tree:root", "root %r is not the source's chip %r" % (root, pl[net["source"]]))
     seen = set()
-    leaves = set()
-    todo = [tree]
-    while todo:
-        t = todo.pop()
-        p = (t[1], t[2])
+    for p in chips:
         if p in seen:
             return ("tree:chip-twice", "chip %r appears twice in the tree" % (p,))
         seen.add(p)
-        for r, k in t[3]:
-            if k[0] == "l":
-                leaves.add((p, r, k[1]))
-                continue
-            if k[0] != "n":
-                return ("tree:unserialisable", "cyclic or huge")
-            ch = (k[1], k[2])
-            if r is None or not (0 <= r <= 5):
-                return ("tree:hop-label", "hop %r -> %r is labelled %r, not a link" % (p, ch, r))
-            if p not in live:
-                return ("tree:dead-chip", "hop %r -%d-> %r leaves a chip that is not working" % (p, r, ch))
-            if (p[0], p[1], r) in dl:
-                return ("tree:dead-link", "hop %r -%d-> %r uses a dead link" % (p, r, ch))
-            dx, dy = VEC[r]
-            if ch != ((p[0] + dx) % w, (p[1] + dy) % h):
-                return ("tree:not-adjacent", "hop %r -%d-> %r: the chip in that direction is %r"
-                        % (p, r, ch, ((p[0] + dx) % w, (p[1] + dy) % h)))
-            todo.append(k)
+    for p, r, ch in hops:
+        if r is None or not (0 <= r <= 5):
+            return ("tree:hop-label", "hop %r -> %r is labelled %r, not a link" % (p, ch, r))
+        if p not in live:
+            return ("tree:dead-chip", "hop %r -%d-> %r leaves a chip that is not working" % (p, r, ch))
+        if (p[0], p[1], r) in dl:
+            return ("tree:dead-link", "hop %r -%d-> %r uses a dead link" % (p, r, ch))
+        dx, dy = VEC[r]
+        if ch != ((p[0] + dx) % w, (p[1] + dy) % h):
+            return ("tree:not-adjacent", "hop %r -%d-> %r: the chip in that direction is %r"
+                    % (p, r, ch, ((p[0] + dx) % w, (p[1] + dy) % h)))
     exp = expected_leaves(c, net)
+    leaves = set(leaves)
     if leaves != exp:
         return ("tree:leaves", "leaves differ from the sinks' requirements: missing %r, extra %r"
                 % (sorted(exp - leaves, key=repr)[:4], sorted(leaves - exp, key=repr)[:4]))
@@ -325,6 +450,15 @@ def oracle(c, out):
                 return ("route:disconnected-error-on-connected-machine",
                         "MachineHasDisconnectedSubregion although all working chips reach each other")
             return None
+        if out["error"][1] == "RecursionError" and out["nets"] and out["nets"][-1].get("broken") is not None:
+            # raised after copy_and_disconnect_tree, i.e. inside the repair: `for c in lookup[child]` walks the
+            # disconnected subtree with the recursive RoutingTree.__iter__
+            return ("repair-recursion-deep-orphan",
+                    "route() raised RecursionError during the dead-link repair on a connected machine of %d x %d chips "
+                    "(the disconnected subtree is about 1000 or more nodes deep)" % (c["machine"]["w"], c["machine"]["h"]))
+        if out["error"][1] == "RecursionError":
+            return ("route:recursion-error", "route() raised RecursionError (%s) on a machine of %d x %d chips"
+                    % (out["error"][2][:60], c["machine"]["w"], c["machine"]["h"]))
         return ("route:other-exception", "route() raised %s: %s" % (out["error"][1], out["error"][2]))
     for net, e in zip(c["nets"], out["nets"]):
         bad = oracle_tree(c, net, e["final"])
@@ -339,17 +473,8 @@ def oracle(c, out):
 
 def twice(tree):
     """does a chip occur twice among the nodes of the tree?"""
-    if tree[0] != "n":
-        return True
-    seen = set()
-    todo = [tree]
-    while todo:
-        t = todo.pop()
-        if (t[1], t[2]) in seen:
-            return True
-        seen.add((t[1], t[2]))
-        todo += [k for _, k in t[3] if k[0] == "n"]
-    return False
+    parts = tree_parts(tree)
+    return parts is None or len(set(parts[3])) != len(parts[3])
 
 
 def oracle_ner(c, out):
@@ -609,7 +734,7 @@ def run(chk, args):
         cases = [f["replay"]["case"] for f in rp.get("failures", []) if "case" in f.get("replay", {})]
         cases += [b["replay"]["case"] for b in rp.get("no_longer_checks", []) if "case" in b.get("replay", {})]
     else:
-        n_route = 2500 if quick else 30000
+        n_route = 2000 if quick else 30000
         n_ner = 800 if quick else 8000
         cases = [gen_case(rng, malformed=(i % 25 == 24), dense=(i % 3 == 0), narrow=(i % 6 == 1))
                  for i in range(n_route)]
@@ -626,11 +751,28 @@ def run(chk, args):
     outs = [o for part in chk.impl_parallel("impl_c03.py", chunks, timeout=3000) for o in part]
     for c, o in zip(cases, outs):
         judge(c, o)
+    # long routes (oracle only: the trees are too deep for the Coq literals) and object-reuse histories (every
+    # route() of a history is judged, and compared with the model, against the fault sets current at that call)
+    if not args.replay:
+        longs = long_cases(rng)
+        for c, o in zip(longs, chk.impl("impl_c03.py", longs, timeout=3000)):
+            chk.count("long-route-cases")
+            judge(c, o, coq=False)
+        hist = [gen_history(rng) for _ in range(250 if quick else 3000)]
+        hchunks = [hist[i:i + 60] for i in range(0, len(hist), 60)]
+        for part, outp in zip(hchunks, chk.impl_parallel("impl_c03.py", hchunks, timeout=3000)):
+            for c, o in zip(part, outp):
+                if not isinstance(o, dict):
+                    continue
+                chk.count("histories")
+                for k, (mstate, ok) in enumerate(zip(history_states(c), o["steps"])):
+                    ck = dict(c, kind="valid", machine=mstate, fault="history-step-%d" % min(k, 3))
+                    judge(ck, ok)
     # a larger dense-fault stream judged by the independent oracle only (the repair step is where trees go wrong;
     # about one dense case in a thousand made the code as found attach a chip twice)
     if not args.replay:
-        n_dense = 15000 if quick else 150000
-        n_narrow = 8000 if quick else 60000
+        n_dense = 10000 if quick else 150000
+        n_narrow = 6000 if quick else 60000
         dense = ([gen_case(rng, dense=True) for _ in range(n_dense)] +
                  [gen_case(rng, narrow=True) for _ in range(n_narrow)])
         dchunks = [dense[i:i + 700] for i in range(0, len(dense), 700)]
@@ -734,10 +876,13 @@ def run(chk, args):
         "route(): random machines up to 7x7 (plus 8x8..10x10 for the hexagon-scan branch, up to 8x12 in the dense-fault "
         "stream) incl. 1xN and 2xN, torus / mesh / partly wrapped, dead chips, dead links in one or both directions, "
         "clustered faults, every third case dense faults (10-20 % of the directed links dead, 0-5 dead chips) plus a larger "
-        "dense-fault stream judged by the oracle only (15000 cases quick, 150000 thorough) and a narrow-machine stream "
+        "dense-fault stream judged by the oracle only (10000 cases quick, 150000 thorough) and a narrow-machine stream "
         "(1xN, 2xN, Nx1, Nx2, N <= 12, dead chips in the middle, mostly one-directional dead links, fan-out 3..12; "
-        "every sixth compared case plus 8000 / 60000 oracle-only); core_resource default or a custom key (with a "
-        "decoy allocation under Cores); 1-3 nets, "
+        "every sixth compared case plus 6000 / 60000 oracle-only); core_resource default or a custom key (with a "
+        "decoy allocation under Cores); six long-route cases (3x2500, 2500x3, 2x1500 meshes with a dead link, 3x2400 torus; "
+        "oracle only); object-reuse histories (one Machine, route(), in-place add/update/discard/clear of dead_links "
+        "and add/discard of dead_chips, route() again; every call judged against the fault sets tracked by the "
+        "harness); 1-3 nets, "
         "fan-out 0..2*chips, sinks on the source chip, duplicated sinks, core allocations / endpoint constraints / "
         "neither, radius in {0,1,2,3,20}, scripted random stream (random / all-zero / all-max / few values / edge "
         "values); every 25th case has a sink on a dead chip (not judged). ner_net alone on fault-free meshes and tori "
